@@ -767,3 +767,191 @@ func appendsFeedingA3(v ssa.Value) []*ssa.Call {
 	walk(v)
 	return out
 }
+
+// ---------- C06: which list of a fan-out type holds the mutating consumers ----------
+
+// capabilityPolarityA3: block b is guarded by a condition that depends on a Capabilities() call; returns the
+// polarity of the innermost such guard.
+func capabilityPolarityA3(b *ssa.BasicBlock) (polarity, found bool) {
+	for _, g := range guardsOf(b) {
+		v, br := boolOf(g)
+		for x := range backSlice(v) {
+			if call, ok := x.(*ssa.Call); ok && call.Call.IsInvoke() && call.Call.Method.Name() == "Capabilities" {
+				return br, true
+			}
+		}
+	}
+	return false, false
+}
+
+// fanListsByEffectA3 identifies the two consumer lists of fan-out type T by what the constructor does with them:
+// the list whose elements are appended under Capabilities().MutatesData is the mutable one, the list appended to on
+// the other side is the read-only one. Used when the field names do not tell (a rename).
+func fanListsByEffectA3(p *Prog, funcs []*ssa.Function, T *types.Named) (mutF, roF string) {
+	st, ok := T.Underlying().(*types.Struct)
+	if !ok {
+		return "", ""
+	}
+	for _, fn := range funcs {
+		if fn.Parent() != nil || recvNamedOfFn(fn) != nil {
+			continue
+		}
+		var m, r []string
+		for i := 0; i < st.NumFields(); i++ {
+			if _, isSl := st.Field(i).Type().Underlying().(*types.Slice); !isSl {
+				continue
+			}
+			name := st.Field(i).Name()
+			nT, nF := 0, 0
+			for _, s := range fieldStores(fn, T, name) {
+				for _, ap := range appendsFeedingA3(s.Val) {
+					if pol, found := capabilityPolarityA3(ap.Block()); found {
+						if pol {
+							nT++
+						} else {
+							nF++
+						}
+					}
+				}
+			}
+			if nT > 0 && nF == 0 {
+				m = append(m, name)
+			}
+			if nF > 0 && nT == 0 {
+				r = append(r, name)
+			}
+		}
+		if len(m) == 1 && len(r) == 1 {
+			return m[0], r[0]
+		}
+	}
+	return "", ""
+}
+
+// ---------- C05: the delay a throttling error carries, identified by type ----------
+
+var errorIfaceA3 = errorType.Underlying().(*types.Interface)
+
+// isThrottleDelayAccessA3: x reads (or addresses) a field of type time.Duration of a struct type of the exporter
+// helper's internal package that is itself an error – the delay the backend asked for, whatever the type and the
+// field are called.
+func isThrottleDelayAccessA3(x ssa.Value) bool {
+	var base types.Type
+	var idx int
+	switch y := x.(type) {
+	case *ssa.FieldAddr:
+		base, idx = y.X.Type(), y.Field
+	case *ssa.Field:
+		base, idx = y.X.Type(), y.Field
+	default:
+		return false
+	}
+	n := namedOf(base)
+	st := derefStruct(base)
+	if n == nil || st == nil || n.Obj().Pkg() == nil || n.Obj().Pkg().Path() != pkgEHI {
+		return false
+	}
+	if !typeIs(st.Field(idx).Type(), "time", "Duration") {
+		return false
+	}
+	return types.Implements(n, errorIfaceA3) || types.Implements(types.NewPointer(n), errorIfaceA3)
+}
+
+// timeoutSenderTypeA3: the sender type of exporterhelper/internal whose Send derives its context with
+// context.WithTimeout (the per-attempt timeout sender), whatever it is called.
+func timeoutSenderTypeA3(p *Prog) *types.Named {
+	ipk := p.ByPath[pkgEHI]
+	if ipk == nil {
+		return nil
+	}
+	for _, fn := range p.AllSrcFuncs(ipk) {
+		if fn.Parent() != nil || fn.Name() != "Send" {
+			continue
+		}
+		if len(callsNamed(fn, func(f *types.Func) bool { return f.FullName() == "context.WithTimeout" })) > 0 {
+			return recvNamedOfFn(fn)
+		}
+	}
+	return nil
+}
+
+// constructedTypeA3: the named type of the object a constructor function returns as its first result (the declared
+// result type, or – when that is an interface – the concrete type every return wraps).
+func constructedTypeA3(p *Prog, g *types.Func) *types.Named {
+	sig := g.Type().(*types.Signature)
+	if sig.Results().Len() == 0 {
+		return nil
+	}
+	if _, isIface := sig.Results().At(0).Type().Underlying().(*types.Interface); !isIface {
+		return namedOf(sig.Results().At(0).Type())
+	}
+	fn := p.SSAFunc(g)
+	if fn == nil || len(fn.Blocks) == 0 {
+		return nil
+	}
+	var out *types.Named
+	for _, r := range returnsOf(fn) {
+		n := namedOf(strip(resultsOf(r)[0]).Type())
+		if n == nil || (out != nil && n != out) {
+			return nil
+		}
+		out = n
+	}
+	return out
+}
+
+// ---------- C06: a fan-out Consume* whose sections were extracted into helpers ----------
+
+// fanBodyA3 is a function that carries out part of a fan-out Consume*: the method itself, or a function of the same
+// package that the method calls exactly once, handing it the incoming payload, and that itself sends to consumers.
+type fanBodyA3 struct {
+	fn      *ssa.Function
+	payload ssa.Value           // the parameter of fn that holds the incoming payload
+	call    ssa.CallInstruction // the call in the Consume* method that enters fn (nil for the method itself)
+}
+
+func fanBodiesA3(consume *ssa.Function, payload ssa.Value) []*fanBodyA3 {
+	out := []*fanBodyA3{{fn: consume, payload: payload}}
+	isSend := func(in ssa.Instruction) bool {
+		ci, ok := in.(ssa.CallInstruction)
+		return ok && ci.Common().IsInvoke() && ci.Common().Method.Name() == consume.Name()
+	}
+	nCalls := map[*ssa.Function]int{}
+	var cand []*fanBodyA3
+	allInstrs(consume, func(in ssa.Instruction) {
+		call, ok := in.(*ssa.Call)
+		if !ok {
+			return
+		}
+		cf := staticCalleeFn(call)
+		if cf == nil || len(cf.Blocks) == 0 || cf.Pkg == nil || cf.Pkg != consume.Pkg || cf == consume {
+			return
+		}
+		var pp ssa.Value
+		for i, a := range call.Call.Args {
+			if a == payload && i < len(cf.Params) {
+				pp = cf.Params[i]
+			}
+		}
+		if pp == nil {
+			return
+		}
+		sends := false
+		allInstrs(cf, func(in2 ssa.Instruction) {
+			if isSend(in2) {
+				sends = true
+			}
+		})
+		if !sends {
+			return
+		}
+		nCalls[cf]++
+		cand = append(cand, &fanBodyA3{fn: cf, payload: pp, call: call})
+	})
+	for _, b := range cand {
+		if nCalls[b.fn] == 1 {
+			out = append(out, b)
+		}
+	}
+	return out
+}
